@@ -109,6 +109,23 @@ def main():
         with open(os.path.join(VERIF, 'selftest', 'RESULTS.md'), 'w') as f:
             f.write('# Selftest results (mutants must fire, neutral edits must stay silent)\n\n')
             for l in lines: f.write('- ' + l + '\n')
+    elif os.environ.get('SELFTEST_MERGE'):
+        # a targeted re-run after a correction: replace the lines of the re-run variants in the last full result
+        res = os.path.join(VERIF, 'selftest', 'RESULTS.md')
+        new = {l.split(' ', 2)[1].rstrip(':'): l for l in lines}
+        out = []
+        for old in open(res).read().split('\n'):
+            parts = old.split(' ', 3)
+            key = parts[2].rstrip(':') if old.startswith('- ') and len(parts) > 2 else None
+            if key in new:
+                out.append('- ' + new.pop(key))
+            else:
+                out.append(old)
+        while out and out[-1] == '':
+            out.pop()
+        for l in new.values():
+            out.append('- ' + l)
+        open(res, 'w').write('\n'.join(out) + '\n')
     miss = sum(1 for l in lines if 'KNOWN MISS' in l)
     print('%d variants, %d failed, %d known misses' % (len(jobs), bad, miss))
     sys.exit(1 if bad else 0)
